@@ -10,7 +10,9 @@ def _fill_check(present, n, first_open_seed, rng):
     for j in sorted(present):
         o = 100.0 + rng.random() * 10
         temp.append({'id': f'id{j}', 'exchange': 'Binance', 'symbol': 'BTC-USDT', 'timeframe': '1m', 'timestamp': start + 60000 * j,
-                     'open': o, 'close': o + 1, 'high': o + 2, 'low': o - 1, 'volume': 5.0 + j})
+                     'open': o, 'close': o + 1, 'high': o + 2, 'low': o - 1,
+                     # a provided candle may have traded nothing and still carry its own prices
+                     'volume': 0.0 if rng.random() < 0.25 else 5.0 + j})
     if rng.random() < 0.5:
         rng.shuffle(temp)
     copies = [dict(c) for c in temp]
